@@ -483,8 +483,8 @@ func (c *qfCtx) candidates(q *Term) []*Term {
 		}
 		return order[i] < order[j]
 	})
-	if len(order) > 64 {
-		order = order[:64]
+	if len(order) > 40 {
+		order = order[:40]
 	}
 	var out []*Term
 	for _, key := range order {
@@ -612,13 +612,15 @@ func qfWeaken(assumes []*Term, goal *Term, rounds int) ([]*Term, *Term) {
 			c.reads[i].base = baseArray(c.reads[i].arr).String()
 		}
 		next := make([]*Term, len(assumes))
-		for i, a := range assumes {
-			next[i] = c.qf(a, +1, 0)
-		}
-		out = next
+		// the goal first, then the assumptions latest first: when the instance budget runs out,
+		// the facts established closest to the assertion have been served
 		if goal != nil {
 			g = c.qf(goal, -1, 0)
 		}
+		for i := len(assumes) - 1; i >= 0; i-- {
+			next[i] = c.qf(assumes[i], +1, 0)
+		}
+		out = next
 	}
 	return out, g
 }
